@@ -92,7 +92,9 @@ func fixedSessions() []sessIn {
 	out := []sessIn{{Profile: "hostile", Name: "fixed-F2-identify-negative-size", Acts: acts},
 		{Profile: "hostile", Name: "fixed-shared-ephemeral-channel", Acts: shared}}
 	out = append(out, identitySessions()...)
-	return append(out, adminSessions()...)
+	out = append(out, adminSessions()...)
+	out = append(out, magicSession())
+	return append(out, nameBoundarySessions(7)...)
 }
 
 // identitySessions: the matrix (identity member of the IDENTIFY body) x (live victim:
